@@ -36,7 +36,7 @@ ASSUMPTIONS = ['visibility read off the observation: a view cell is visible iff 
 EXHAUSTIVE_NOTE = 'all opacity patterns (agent cell transparent) of 3x3 and 4x3 views with every single-cell flip, x 2 functions (thorough: 3x5 too)'
 REQUIRED = {'quick': {'ni.pairs': 20000, 'chain.checked': 5000, 'monotone.pairs': 3000, 'patterns': 2000,
                       'stochastic.checked': 1000, 'stochastic.hidden_by_chance': 50, 'agent_cell.checked': 5000,
-                      'ni.outside_view': 500, 'ni.hidden_in_view': 5000, 'history_states.compared': 200}}
+                      'ni.outside_view': 500, 'ni.hidden_in_view': 5000, 'history_states.compared': 200, 'views.large': 4}}
 OCCLUDING = ['partially_occluded', 'raytracing']
 N8 = [(-1, -1), (-1, 0), (-1, 1), (0, -1), (0, 1), (1, -1), (1, 0), (1, 1)]
 
@@ -265,6 +265,23 @@ def stochastic(ctx, state, area, fns, seeds, rng):
                     ctx.hit('stochastic.hidden_by_chance')
 
 
+def large_views(ctx, fns):
+    """views with hundreds of rays through the agent's cell (15x15: 256, 7x31 / 31x7: 256, 17x17: 324)"""
+    for i, (ys, xs) in enumerate(obsgen.LARGE_AREAS):
+        if not ctx.mine(i):
+            continue
+        rng = gen.rng_for('C06large', ctx.seed, i)
+        area = Area(ys, xs)
+        for rep in range(2):
+            state, _, cat = obsgen.rand_case(rng, hmax=9, wmax=9)
+            for name in OCCLUDING:
+                if obsgen.supported(name, area):
+                    analyse(ctx, state, area, name, fns[(name, area)], 3, rng, label='large view: ')
+            if obsgen.supported('raytracing', area):
+                stochastic(ctx, state, area, fns, 4, rng)
+            ctx.hit('views.large')
+
+
 def run(ctx):
     from .. import custom_objects
     custom_objects.enable(curtain=True)  # user-defined object types join the generators' pool (flags, not types, must decide)
@@ -274,6 +291,7 @@ def run(ctx):
                      visibility_fs.stochastic_raytracing, observation_fs.from_visibility]):
         shapes = [(3, 3, 0), (4, 3, 0), (3, 5, 0 if ctx.thorough else 1200)]
         patterns(ctx, shapes, fns)
+        large_views(ctx, fns)
         for k in range(ctx.pick(250, 12000)):
             if ctx.out_of_time(0.9):
                 ctx.add('random_cases_skipped_for_time')
